@@ -1,5 +1,6 @@
 """C14 — loading raw data is faithful to acquisition indices, not to file order."""
 import itertools
+from fractions import Fraction
 import math
 import random
 import warnings
@@ -222,8 +223,8 @@ def run_load(case, drv) -> Outcome:
                     want = [[0.0] * n_k0, [r * math.sin(ang) for r in kf], [r * math.cos(ang) for r in kf]]
                 else:
                     ang = a['labels']['k2'] * ANGLE
-                    k1c = a['labels']['k1'] - lim1
-                    krad = k1c + (shifts[a['labels']['k2'] % 4] if k1c != 0 else 0.0)
+                    krad = float(Fraction(drv.call({'op': 'rpe_krad', 'shifts': ['0', '1/2', '1/4', '3/4'], 'center': int(lim1), 'k1': [a['labels']['k1']],
+                                                    'k2': [a['labels']['k2']]})['krad'][0]))  # Lean model M.rpeKrad
                     want = [[krad * math.sin(ang)] * n_k0, [krad * math.cos(ang)] * n_k0, kf]
                 if any(abs(g - w) > 2e-5 * (1 + abs(w)) for gg, ww in zip(got, want, strict=True) for g, w in zip(gg, ww, strict=True)):
                     viol = viol or v(f'traj-{case["traj"]}', f'readout {a["id"]} (k1 {a["labels"]["k1"]}, k2 {a["labels"]["k2"]}, centre {lim1}) is at kz,ky,kx = '
